@@ -130,7 +130,7 @@ constexpr int M_ALLFS = 0x3f, M_SAMEL = (1 << SRC_PEER) | (1 << SRC_SELF) | (1 <
   X(append_cstr_cnt, R_SCNTLE, R_NONE, R_NONE, R_NONE, S_USED | S_NONUL, 0, 0, 1, 1)                  \
   X(append_cstr, R_NONE, R_NONE, R_NONE, R_NONE, S_USED | S_NONUL, 0, 0, 1, 1)                        \
   X(append_range, R_SPOSLT, R_SLAST, R_NONE, R_NONE, S_USED | S_FS, 0, M_SAMEL, 1, 1)                 \
-  X(sprintf, R_INT, R_NONE, R_NONE, R_NONE, S_USED | S_NONUL, 1, 0, 1, 7)                             \
+  X(sprintf, R_INT, R_NONE, R_NONE, R_NONE, S_USED | S_NONUL, 1, 0, 1, 8)                             \
   X(plus_fs, R_NONE, R_NONE, R_NONE, R_NONE, S_USED | S_FS, 0, M_ALLFS, 1, 1)                         \
   X(plus_str, R_NONE, R_NONE, R_NONE, R_NONE, S_USED, 0, 0, 1, 1)                                     \
   X(plus_cstr, R_NONE, R_NONE, R_NONE, R_NONE, S_USED | S_NONUL, 0, 0, 1, 1)                          \
@@ -296,8 +296,10 @@ inline const char *ilistText(int v) {
 }
 // sprintf formats: all take (const char*, int, int) in a fixed order decided per format
 inline const char *sprintfFormat(int v) {
-  static const char *const t[] = {"%s", "%d", "[%s|%d]", "%5d%s", "%-10s|", "%x%c", "%%%s%%"};
-  return t[v % 7];
+  // the last one fails inside vsnprintf (a wide character that the C locale cannot convert): the error return must leave a
+  // well-formed string behind
+  static const char *const t[] = {"%s", "%d", "[%s|%d]", "%5d%s", "%-10s|", "%x%c", "%%%s%%", "ab%lcde"};
+  return t[v % 8];
 }
 
 #ifndef FS_NO_RAPIDCHECK
